@@ -40,12 +40,14 @@ def gen(consts, simulate=None, depth=None, seed=0, timeout=1800, workers=1):
     return r, out
 
 
+FM_ALL = '= {"nikuradse", "colebrook", "swamee-jain"}'
+FM_NIK = '= {"nikuradse"}'
 GEN_SMALL = {"ThermalOn": "= FALSE", "MaxNodes": "= 3", "MaxChords": "= 1", "Demands": "<- DemandsSmall", "NVals": "= {0, 160}",
              "ZetaVals": "= {0, 2}", "SecVals": "= {1, 3}", "HVals": "= {1, 2}", "ChordFlows": "<- ChordFlowsSmall",
-             "Kinds": "<- KindsAll", "MaxSteps": "= 2", "FdVals": "= {1}", "TeVals": "= {1}", "DtVals": "= {0}"}
+             "Kinds": "<- KindsAll", "MaxSteps": "= 2", "FdVals": "= {1}", "TeVals": "= {1}", "DtVals": "= {0}", "FmVals": FM_ALL}
 GEN_BIG = {"ThermalOn": "= FALSE", "MaxNodes": "= 6", "MaxChords": "= 2", "Demands": "<- DemandsDef", "NVals": "= {0, 160, 320, 1600}",
            "ZetaVals": "= {0, 1, 2}", "SecVals": "= {1, 2, 3}", "HVals": "= {1, 2, 3}", "ChordFlows": "<- ChordFlowsDef",
-           "Kinds": "<- KindsAll", "FdVals": "= {1}", "TeVals": "= {1}", "DtVals": "= {0}"}
+           "Kinds": "<- KindsAll", "FdVals": "= {1}", "TeVals": "= {1}", "DtVals": "= {0}", "FmVals": FM_ALL}
 
 
 def scenarios(tier, seed, rnd):
@@ -85,6 +87,8 @@ def run_case(job):
     tabs = D.oracle_tables()
     s["hm"], s["pamb"] = tabs["hm"], tabs["pamb"]      # oracle tables computed from the documented formula
     sb = dict(s)
+    if job.get("flows"):
+        sb["mflows"] = job["flows"]        # the designed flows (from the specification): roughness of colebrook / swamee-jain pipes
     if "pn" in var:
         sb["pn"] = var["pn"]
     labels = {int(k): v for k, v in var["labels"].items()} if var.get("labels") else None
@@ -97,6 +101,8 @@ def run_case(job):
                 r.shuffle(idx)
                 net[t] = net[t].loc[idx]
     opts = {"use_numba": bool(var.get("numba", False)), "tol_p": 1e-10, "tol_m": 1e-10, "tol_res": 1e-8, "iter": 100}
+    if s.get("fm", "nikuradse") != "nikuradse":
+        opts.update(friction_model=s["fm"], max_iter_colebrook=100, tolerance_colebrook=1e-13)
     opts.update(var.get("opts") or {})
     try:
         pp.pipeflow(net, **opts)
@@ -105,7 +111,7 @@ def run_case(job):
         outcome = "PipeflowNotConverged"
     except Exception as e:  # noqa
         outcome = "raised:%s" % type(e).__name__
-    case = {"id": job["id"], "s": s, "variant": var, "outcome": outcome, "family": job.get("family", "")}
+    case = {"id": job["id"], "s": s, "variant": var, "outcome": outcome, "family": job.get("family", ""), "flows": job.get("flows") or []}
     if outcome != "returned":
         case["obs"] = {"nodes": [], "branches": [], "chords": [], "feeders": []}
         return case
@@ -232,24 +238,36 @@ def run_check(prop, text_rule, nmax_quick=450, workers=None, level="model_checki
     consts = dict(GEN_SMALL, MaxSteps="= 3" if tr == "thorough" else "= 2")
     with open(os.path.join(tlc.SPEC_DIR, cfgname), "w") as f:
         f.write("SPECIFICATION Spec\nCONSTANTS\n" + "".join("  %s %s\n" % kv for kv in consts.items()) +
-                "  EmitOn = FALSE\nINVARIANT InvBalance\nINVARIANT InvOrientationFree\nINVARIANT InvShift\nCHECK_DEADLOCK FALSE\n")
+                "  EmitOn = FALSE\nINVARIANT InvBalance\nINVARIANT InvOrientationFree\nINVARIANT InvShift\nINVARIANT InvFrictionModel\nCHECK_DEADLOCK FALSE\n")
     try:
         mc = tlc.run("GenHyd", cfg=cfgname, workers=core.nworkers(), timeout=3000, check=True)
     finally:
         os.remove(os.path.join(tlc.SPEC_DIR, cfgname))
     # 2. spec -> code
     small, big = scenarios(tr, sd, rnd)
-    pool = (rnd.sample(small, min(len(small), nmax_quick // 2)) if tr == "quick" else small) + big
+    if tr == "quick":
+        # stratified sample, so that the amount of non-trivial work does not depend on the seed: few two-junction scenarios,
+        # mostly scenarios with >= 3 junctions, the three friction models in equal parts
+        pool = []
+        for fm in ("nikuradse", "colebrook", "swamee-jain"):
+            s2 = [r for r in small if len(normalise(r["s"])["nodes"]) < 3 and r["s"].get("fm", "nikuradse") == fm]
+            s3 = [r for r in small if len(normalise(r["s"])["nodes"]) >= 3 and r["s"].get("fm", "nikuradse") == fm]
+            pool += rnd.sample(s2, min(len(s2), nmax_quick // 30)) + rnd.sample(s3, min(len(s3), nmax_quick // 8))
+        pool += big
+    else:
+        pool = small + big
     jobs = []
     for i, r in enumerate(pool):
         for j, v in enumerate(variants_for(prop, r["s"], rnd, tr)):
-            jobs.append({"id": "%s.%d.%d" % (prop, i, j), "s": r["s"], "variant": v, "family": prop})
+            jobs.append({"id": "%s.%d.%d" % (prop, i, j), "s": r["s"], "variant": v, "family": prop, "flows": r["exp"]["m"]})
     if tr == "quick" and len(jobs) > nmax_quick:
-        jobs = rnd.sample(jobs, nmax_quick)
+        triv = [j for j in jobs if len(normalise(j["s"])["nodes"]) < 3]
+        jobs = [j for j in jobs if len(normalise(j["s"])["nodes"]) >= 3]
+        jobs = rnd.sample(jobs, min(len(jobs), nmax_quick - nmax_quick // 10)) + rnd.sample(triv, min(len(triv), nmax_quick // 10))
     if prop in ("C03", "C02", "C06"):                 # scenarios with designed pumps (linear characteristic): always all of them
         for i, r in enumerate(pump_scenarios(tr, sd)):
             for j, v in enumerate(variants_for(prop, r["s"], rnd, tr)):
-                jobs.append({"id": "%s.p%d.%d" % (prop, i, j), "s": r["s"], "variant": v, "family": prop})
+                jobs.append({"id": "%s.p%d.%d" % (prop, i, j), "s": r["s"], "variant": v, "family": prop, "flows": r["exp"]["m"]})
     cases = core.pmap(run_case, jobs, chunksize=6, workers=workers)
     by_id = {c["id"]: c for c in cases}
     res, fails = validate(cases)
@@ -258,7 +276,7 @@ def run_check(prop, text_rule, nmax_quick=450, workers=None, level="model_checki
         for cl in f["clauses"]:
             cc[cl[0]] += 1
             c = by_id[f["id"]]
-            V.report(cl[0], cl[1], {"s": c["s"], "variant": c["variant"], "id": c["id"]},
+            V.report(cl[0], cl[1], {"s": c["s"], "variant": c["variant"], "id": c["id"], "flows": c["flows"]},
                      text="element=%s case=%s variant=%s" % (cl[2], f["id"], json.dumps(c["variant"])[:120]))
     ok = sum(1 for c in cases if c["outcome"] == "returned")
     cov = {"states": mc.distinct, "transitions": mc.generated, "traces_validated_against_impl": len(cases),
@@ -283,7 +301,7 @@ def run_check(prop, text_rule, nmax_quick=450, workers=None, level="model_checki
 def replay_file(prop, path):
     rec = json.load(open(path))
     c = rec["case"]
-    case = run_case({"id": c["id"], "s": c["s"], "variant": c["variant"], "family": prop})
+    case = run_case({"id": c["id"], "s": c["s"], "variant": c["variant"], "family": prop, "flows": c.get("flows")})
     res, fails = validate([case])
     for f in fails:
         print("FAIL", f)
